@@ -8,8 +8,14 @@ import sympy as sp
 
 from .values import (Val, Num, StrV, NoneV, NONE, BoolV, CondV, TupleV, ListV, DictV, SetV, SliceV, ObjV,
                      ClassV, FuncV, ExtV, BoundBuiltin, OpaqueV, SigParamV, SignatureV, Unsupported,
-                     DimensionError, UNITS, UNIT_SYMS, F, NONE_S)
+                     DimensionError, UNITS, UNIT_SYMS, F, NONE_S, mk_ite)
 from .model import ClassInfo, FunctionInfo, ModuleInfo, norm
+
+def is_bool_expr(e):
+    """sympy Symbols inherit from Boolean; only genuine Boolean terms count."""
+    return isinstance(e, (sp.logic.boolalg.BooleanFunction, sp.logic.boolalg.BooleanAtom,
+                          sp.core.relational.Relational)) and not getattr(e, "is_Symbol", False)
+
 
 BUILTINS = {
     "len", "int", "float", "bool", "str", "complex", "abs", "round", "min", "max", "sum", "any", "all",
@@ -821,7 +827,7 @@ def slice_indices(ev, s: SliceV, n: Val, fr, node):
             return sp.Min(k, nn)
         if k.is_negative or (k.is_number and k < 0):
             return sp.Max(k + nn, 0)
-        return sp.Piecewise((sp.Max(k + nn, 0), k < 0), (sp.Min(k, nn), True))
+        return mk_ite(k < 0, sp.Max(k + nn, 0), sp.Min(k, nn))
     start, stop = clamp(a, sp.Integer(0)), clamp(b, nn)
     ev.__dict__.setdefault("indices_calls", []).append((s, nn, (start, stop, step)))
     return TupleV([Num(start), Num(stop), Num(step)])
@@ -1095,7 +1101,12 @@ def h_int(ev, args, kwargs, fr, node):
             return Num(e)
         if e.is_number:
             return Num(sp.Integer(int(e)))
-        return Num(F["Int"](e))
+        # int() truncates towards zero
+        from .sign import is_nonneg, facts_nonneg
+        known = facts_nonneg(fr.facts) if fr is not None else set()
+        if is_nonneg(e, known):
+            return Num(sp.floor(e, evaluate=False))
+        return Num(mk_ite(e >= 0, sp.floor(e, evaluate=False), sp.ceiling(e, evaluate=False)))
     ev.unsupported(f"int() of {x!r}", node, fr)
 
 
@@ -1557,9 +1568,9 @@ def h_bool_(ev, args, kwargs, fr, node):
 def h_where(ev, args, kwargs, fr, node):
     c, a, b = args
     ce = c.expr
-    if not isinstance(ce, sp.logic.boolalg.Boolean):
+    if not is_bool_expr(ce):
         ce = sp.Ne(ce, 0)
-    return Num(sp.Piecewise((a.expr, ce), (b.expr, True)), kind="array", shape=getattr(a, "shape", None))
+    return Num(mk_ite(ce, a.expr, b.expr), kind="array", shape=getattr(a, "shape", None))
 
 
 def h_prod(ev, args, kwargs, fr, node):
@@ -1704,7 +1715,7 @@ EXT = {
     "dask.array.asarray": lambda ev, a, k, fr, n: a[0].like(a[0].expr, backend="dask") if isinstance(a[0], Num) else a[0],
     "numpy.stack": h_stack, "numpy.concatenate": h_concatenate, "numpy.take": h_take, "numpy.nditer": h_nditer, "numpy.broadcast_to": h_broadcast_to,
     "numpy.prod": h_prod, "math.prod": h_prod, "numpy.where": h_where, "numpy.bool_": h_bool_,
-    "numpy.allclose": h_allclose, "numpy.iscomplexobj": h_iscomplexobj,
+    "numpy.allclose": h_allclose, "numpy.isclose": h_allclose, "numpy.iscomplexobj": h_iscomplexobj,
     "numpy.fft.fftshift": _shift_like("FFTSHIFT"), "numpy.fft.ifftshift": _shift_like("IFFTSHIFT"),
     "astropy.time.Time": h_time, "astropy.time.Time.isclose": h_isclose_time,
     "astropy.units.isclose": h_isclose_q, "astropy.units.allclose": h_isclose_q,
